@@ -87,7 +87,8 @@ def case_strategy(draw, quick=True):
         rc['ops'] = list(rc.get('ops', [])) + [{'op': 'rotate', 'angle': draw(st.sampled_from([90.0, 90.0, 180.0, 45.0, 1e-7, 30.0]))}]
     return {'rc': rc, 'pts': draw(st.lists(point_spec(), min_size=4, max_size=8)),
             'zs': draw(st.lists(z_spec(), min_size=1, max_size=3)),
-            'lines': draw(st.lists(line_spec(), min_size=2, max_size=4)), 'aid': draw(aid_spec())}
+            'lines': draw(st.lists(line_spec(), min_size=2, max_size=4)), 'aid': draw(aid_spec()),
+            'warm': draw(st.booleans())}
 
 
 @st.composite
@@ -108,7 +109,7 @@ def small_column_case(draw):
                       'reach': draw(st.sampled_from([300, 1500, 3000, 10000])), 'beyond': draw(st.sampled_from([0.0, 3.0, 2000.0])),
                       'which': 'smallest', 'col': 0})
     return {'rc': rc, 'pts': draw(st.lists(point_spec(), min_size=2, max_size=4)), 'zs': draw(st.lists(z_spec(), min_size=1, max_size=2)),
-            'lines': lines, 'aid': draw(aid_spec())}
+            'lines': lines, 'aid': draw(aid_spec()), 'warm': draw(st.booleans())}
 
 
 def shipped_cases(tier):
@@ -147,13 +148,39 @@ class Ctx(object):
     pass
 
 
+def warm_queries(g, np):
+    b = g.bounds
+    for c in g.columnlist[:40]:
+        g.column_containing_point(c.centre); c.bounding_box
+    c0, c1 = g.columnlist[0], g.columnlist[-1]
+    g.column_containing_point(c0.centre, guess=c1)
+    qt = g.column_quadtree()
+    g.column_containing_point(c1.centre, qtree=qt)
+    g.column_track([np.array(b[0], dtype=float), np.array(b[1], dtype=float)])
+    g.block_name_containing_point(np.array([c0.centre[0], c0.centre[1], g.layerlist[-1].centre]))
+
+
 def run_case(case, R):
     import mulgrids, numpy as np
     rc = case['rc']
     for l in geo.describe(rc):
         if l.startswith(('base:', 'op:')): R.label(l)
+    # call history: in half of the cases whose recipe ends with a rotation or translation, the geometry is
+    # *searched* before that last operation (points, guesses, quadtree, a track, a block), so that answers which
+    # depend on state left behind by earlier searches (cached boxes, trees) are exposed
+    ops = list(rc.get('ops') or [])
+    warm = bool(case.get('warm')) and bool(ops) and ops[-1]['op'] in ('rotate', 'translate')
     try:
-        g = geo.build(rc)
+        if warm:
+            g = geo.build(dict(rc, ops=ops[:-1]))
+            with R.lib('warm-up-searches'):
+                warm_queries(g, np)
+            with R.lib('last-op'):
+                geo.apply_op(g, ops[-1], rc)
+                g.setup_block_name_index(); g.setup_block_connection_name_index()
+            R.label('history:searched-before-last-move')
+        else:
+            g = geo.build(rc)
     except mulgrids.NamingConventionError:
         R.label('build:naming-capacity'); return
     bad = geo.input_defects(g)
